@@ -17,8 +17,8 @@ class C12(core.Check):
                   "That the configured tymeout reaches the remoter, that TLS remoters refresh too and the order check-before-receive are carried by the correspondence run on the real classes.")
     level_note = ("Trusted: Lean kernel + standard axioms; tymes are multiples of 1/8 s so float arithmetic in Tymer is exact; the HTTP request parser's decision 'persistent' is taken from the real code, "
                   "modelled as an event.")
-    quick_n = 700
-    thorough_n = 8000
+    quick_n = 1500
+    thorough_n = 10000
     rule = ("case = (tls, tymeout in 1/8 s, ops) with ops connect(ca) / tick(d) / data(ca, n) (bytes of an unfinished request) / req(ca) (complete HTTP/1.1 request) / service; "
             "tymeout in {0,1,2,8,40}, 1-3 connections, ticks biased to the deadline -1/0/+1, bursts of several arrivals before one service. "
             "non-trivial = some connection is closed for idleness or survives past one full tymeout because of traffic; distinct by request line")
